@@ -19,6 +19,9 @@ changed=$(cd /verif && git status --porcelain -- coq | awk '{print $2}')
    case "$v" in coq/Gen/*) ;; *) if echo "$changed" | grep -qx "$v"; then continue; fi; [ -f "$W/verif/$v" ] || continue;; esac
    mkdir -p "$W/verif/coq/$(dirname $f)"; cp -p "$f" "$W/verif/coq/$f"; done)
 cp -p /verif/coq/Gen/*.v $W/verif/coq/Gen/ 2>/dev/null
+# git archive stamps every file with the commit time; give unchanged sources the working tree's mtime so that make
+# accepts the copied .vo files
+(cd /verif && git ls-files coq | while read v; do if echo "$changed" | grep -qx "$v"; then continue; fi; [ -f "$W/verif/$v" ] && touch -r "/verif/$v" "$W/verif/$v"; done)
 mkdir -p $W/verif/replays $W/verif/evidence
 sed -i "s#=> /repo#=> $W/repo#" $W/verif/harness/go.mod
 cd $W/verif
